@@ -169,6 +169,7 @@ func (hc *histChecker) onReply(op *Op, connID string) {
 					}
 				} else {
 					e.owner = fmt.Sprintf("a%02d/op%d", op.Client, op.Idx)
+					e.op = op
 					if e.res.changed {
 						hc.acked[strings.Join(op.Cmd.Args, "\x00")] = true
 					}
